@@ -230,9 +230,9 @@ fn reprove(
 /// Cross-implementation runs on fresh random configurations, exchanged as bytes
 fn cross(ctx: &Ctx, rep: &mut Report) {
     let mut cfgs = lattice_systematic(if ctx.thorough() { 1024 } else { 128 }, if ctx.thorough() { 2048 } else { 256 }, false);
-    let nrand = if ctx.thorough() { 400 } else { 30 };
+    let nrand = if ctx.thorough() { 2500 } else { 30 };
     cfgs.extend(lattice_random(&mut ctx.rng("c19-lattice", 0), nrand, 256, 512));
-    let reps = if ctx.thorough() { 3 } else { 1 };
+    let reps = if ctx.thorough() { 4 } else { 1 };
     let mut id = 10000usize;
     for (k, cfg) in cfgs.iter().enumerate() {
         for r in 0..reps {
